@@ -2,6 +2,8 @@ package main
 
 import (
 	"fmt"
+	"go/ast"
+	"go/constant"
 	"go/token"
 	"go/types"
 	"sort"
@@ -383,4 +385,1549 @@ func shallowObjectMethod(l *Loaded, name string) bool {
 	}
 	shallowMemo[name] = res
 	return res
+}
+
+// ---- loop-stutter (C05, C18, C19) ---------------------------------------------------------------------------------------------------
+// A cycle of the control-flow graph on which nothing happens: every instruction
+// on it is free of effects (no call, store, send, map update, iterator step,
+// channel receive) and every phi of the loop header receives, along the cycle,
+// its own value.  If such a path is taken once the machine state at the header
+// is the same as before, the same branches are taken again, and the loop never
+// ends.  (An `else { break }` dropped from a loop that follows a chain of
+// wrapped errors: for an error that has no Unwrap the loop spins.)
+// Decides the absence of such cycles, not termination in general.
+func ruleLoopStutter(c *Ctx, rule string, fns []*ssa.Function, minLoops int) {
+	l := c.L
+	pureInstr := func(ins ssa.Instruction) bool {
+		switch x := ins.(type) {
+		case *ssa.Phi, *ssa.BinOp, *ssa.Extract, *ssa.If, *ssa.Jump, *ssa.Convert, *ssa.ChangeType, *ssa.ChangeInterface,
+			*ssa.MakeInterface, *ssa.FieldAddr, *ssa.Field, *ssa.IndexAddr, *ssa.Index, *ssa.Lookup, *ssa.Slice, *ssa.DebugRef,
+			*ssa.Alloc, *ssa.MakeSlice, *ssa.MakeMap, *ssa.MakeClosure, *ssa.SliceToArrayPointer, *ssa.MultiConvert:
+			return true
+		case *ssa.TypeAssert:
+			return x.CommaOk
+		case *ssa.UnOp:
+			return x.Op != token.ARROW
+		case *ssa.Call:
+			if b, ok := x.Call.Value.(*ssa.Builtin); ok {
+				switch b.Name() {
+				case "len", "cap", "min", "max", "real", "imag", "complex":
+					return true
+				}
+			}
+			return false
+		}
+		return false
+	}
+	pureBlock := func(b *ssa.BasicBlock) bool {
+		for _, ins := range b.Instrs {
+			if !pureInstr(ins) {
+				return false
+			}
+		}
+		return true
+	}
+	loops, cycles := 0, 0
+	for _, fn := range fns {
+		for _, h := range fn.Blocks {
+			// a loop header: some predecessor is dominated by it (back edge)
+			isHeader := false
+			for _, p := range h.Preds {
+				if h.Dominates(p) {
+					isHeader = true
+				}
+			}
+			if !isHeader {
+				continue
+			}
+			loops++
+			key := fmt.Sprintf("%s | loop #%d", fnName(fn), loops)
+			_ = key
+			if !pureBlock(h) {
+				continue
+			}
+			// depth-first over effect-free blocks dominated by the header, back to the header
+			var path []*ssa.BasicBlock
+			onPath := map[*ssa.BasicBlock]bool{}
+			var found []*ssa.BasicBlock
+			steps := 0
+			var dfs func(b *ssa.BasicBlock)
+			dfs = func(b *ssa.BasicBlock) {
+				if found != nil || steps > 20000 {
+					return
+				}
+				steps++
+				path = append(path, b)
+				onPath[b] = true
+				for _, s := range b.Succs {
+					if s == h {
+						// resolve the header's phis along path
+						predOf := map[*ssa.BasicBlock]*ssa.BasicBlock{}
+						for i := 1; i < len(path); i++ {
+							predOf[path[i]] = path[i-1]
+						}
+						predOf[h] = b
+						var resolve func(v ssa.Value, d int) ssa.Value
+						resolve = func(v ssa.Value, d int) ssa.Value {
+							phi, ok := v.(*ssa.Phi)
+							if !ok || d > 16 || phi.Block() == h || !onPath[phi.Block()] {
+								return v
+							}
+							p := predOf[phi.Block()]
+							for i, q := range phi.Block().Preds {
+								if q == p {
+									return resolve(phi.Edges[i], d+1)
+								}
+							}
+							return v
+						}
+						same := true
+						for _, ins := range h.Instrs {
+							phi, ok := ins.(*ssa.Phi)
+							if !ok {
+								break
+							}
+							for i, q := range h.Preds {
+								if q == b && resolve(phi.Edges[i], 0) != ssa.Value(phi) {
+									same = false
+								}
+							}
+						}
+						if same {
+							found = append([]*ssa.BasicBlock(nil), path...)
+							return
+						}
+						continue
+					}
+					if onPath[s] || !h.Dominates(s) || !pureBlock(s) {
+						continue
+					}
+					dfs(s)
+				}
+				path = path[:len(path)-1]
+				onPath[b] = false
+			}
+			dfs(h)
+			if found != nil {
+				cycles++
+				var bs []string
+				for _, b := range found {
+					bs = append(bs, fmt.Sprint(b.Index))
+				}
+				pos := l.Pos(fn.Pos())
+				for _, b := range found {
+					for _, ins := range b.Instrs {
+						if ins.Pos().IsValid() {
+							pos = l.Pos(ins.Pos())
+							break
+						}
+					}
+					if pos != l.Pos(fn.Pos()) {
+						break
+					}
+				}
+				c.Bad(rule, fmt.Sprintf("%s | effect-free cycle", fnName(fn)), pos, "the loop has a cycle (blocks "+strings.Join(bs, " -> ")+" -> "+bs[0]+") on which no instruction has an effect and every loop variable keeps its value: once taken, it is taken for ever (the call never returns)")
+			}
+		}
+	}
+	c.Ok(rule, "loops examined", "-", fmt.Sprintf("%d loops in %d functions, %d effect-free cycles", loops, len(fns), cycles))
+	c.extra["loops_examined/"+rule] = loops
+	if loops < minLoops {
+		c.Und(rule, "loop count", "-", fmt.Sprintf("only %d loops found in scope: the rule lost its subject", loops))
+	}
+}
+
+// ---- C19/lock-release-on-panic (also C17) -----------------------------------------------------------------------------------------
+// A mutex that is not released by a deferred call stays locked when a panic
+// passes through the function.  The json encoder reports errors by panicking
+// (recovered in Marshal), the VM recovers Go panics of builtins: both continue
+// to run scripts afterwards, and the next operation on the locked object never
+// returns.  For every Lock / RLock of the library that has no deferred release
+// in the same function: no call made while the lock is held can panic, where a
+// call can panic if it is dynamic (function value, interface method) or reaches,
+// through static calls inside the repository, an explicit panic or a dynamic call.
+func ruleLockReleaseOnPanic(c *Ctx, rule string) {
+	l := c.L
+	isLockType := func(t types.Type) bool {
+		if p, ok := t.Underlying().(*types.Pointer); ok {
+			t = p.Elem()
+		}
+		n := namedOf(t)
+		if n == nil || n.Obj().Pkg() == nil {
+			return false
+		}
+		pp, nm := n.Obj().Pkg().Path(), n.Obj().Name()
+		return (pp == "sync" && (nm == "Mutex" || nm == "RWMutex")) || (pp == modPath && nm == "SyncMap")
+	}
+	lockCall := func(ins ssa.Instruction, names ...string) (ssa.Value, bool) {
+		ci, ok := ins.(ssa.CallInstruction)
+		if !ok {
+			return nil, false
+		}
+		f := ci.Common().StaticCallee()
+		if f == nil || f.Signature.Recv() == nil || len(ci.Common().Args) == 0 || !isLockType(f.Signature.Recv().Type()) {
+			return nil, false
+		}
+		for _, n := range names {
+			if f.Name() == n {
+				a := ci.Common().Args[0]
+				for {
+					if ct, ok := a.(*ssa.ChangeType); ok {
+						a = ct.X
+						continue
+					}
+					break
+				}
+				return a, true
+			}
+		}
+		return nil, false
+	}
+	memo := map[*ssa.Function]int{}
+	var mayPanic func(f *ssa.Function, depth int) bool
+	mayPanic = func(f *ssa.Function, depth int) bool {
+		if f == nil {
+			return true
+		}
+		if !strings.HasPrefix(funcPkgPath(f), modPath) || len(f.Blocks) == 0 {
+			return false // the Go library is taken not to panic on the values it is given here
+		}
+		if r, ok := memo[f]; ok {
+			return r == 1
+		}
+		if depth > 6 {
+			return true
+		}
+		memo[f] = 2
+		res := false
+		eachInstr(f, func(ins ssa.Instruction) {
+			if res {
+				return
+			}
+			switch x := ins.(type) {
+			case *ssa.Panic:
+				res = true
+			case ssa.CallInstruction:
+				cc := x.Common()
+				if _, isB := cc.Value.(*ssa.Builtin); isB {
+					return
+				}
+				if _, isL := lockCall(ins, "Lock", "RLock", "Unlock", "RUnlock"); isL {
+					return
+				}
+				g := cc.StaticCallee()
+				if g == nil {
+					if mc, ok := cc.Value.(*ssa.MakeClosure); ok {
+						g, _ = mc.Fn.(*ssa.Function)
+					}
+				}
+				if g == nil || mayPanic(g, depth+1) {
+					res = true
+				}
+			}
+		})
+		if res {
+			memo[f] = 1
+		} else {
+			memo[f] = 0
+		}
+		return res
+	}
+	n := 0
+	for _, fn := range l.RepoFuncs(func(p string) bool { return isLibPkg(p) }) {
+		fn := fn
+		eachInstr(fn, func(ins ssa.Instruction) {
+			if _, isDefer := ins.(*ssa.Defer); isDefer {
+				return
+			}
+			base, ok := lockCall(ins, "Lock", "RLock")
+			if !ok {
+				return
+			}
+			n++
+			key := fmt.Sprintf("%s | lock of %s", fnName(fn), describe(base))
+			deferred := false
+			eachInstr(fn, func(d ssa.Instruction) {
+				df, isDefer := d.(*ssa.Defer)
+				if !isDefer {
+					return
+				}
+				if b, ok := lockCall(df, "Unlock", "RUnlock"); ok && (b == base || exprEq(b, base)) {
+					deferred = true
+				}
+			})
+			if deferred {
+				c.Ok(rule, key, l.Pos(ins.Pos()), "released by a deferred call")
+				return
+			}
+			// the region in which the lock is held: reachable from the lock, not behind an explicit release
+			var bad []string
+			seen := map[*ssa.BasicBlock]bool{}
+			var walk func(b *ssa.BasicBlock, from int)
+			walk = func(b *ssa.BasicBlock, from int) {
+				for _, x := range b.Instrs[from:] {
+					if ub, ok := lockCall(x, "Unlock", "RUnlock"); ok && (ub == base || exprEq(ub, base)) {
+						if _, isDefer := x.(*ssa.Defer); !isDefer {
+							return
+						}
+					}
+					ci, isCall := x.(ssa.CallInstruction)
+					if !isCall {
+						continue
+					}
+					if _, isDefer := x.(*ssa.Defer); isDefer {
+						continue
+					}
+					cc := ci.Common()
+					if _, isB := cc.Value.(*ssa.Builtin); isB {
+						continue
+					}
+					if _, isL := lockCall(x, "Lock", "RLock", "Unlock", "RUnlock"); isL {
+						continue
+					}
+					g := cc.StaticCallee()
+					if g == nil {
+						if mc, ok := cc.Value.(*ssa.MakeClosure); ok {
+							g, _ = mc.Fn.(*ssa.Function)
+						}
+					}
+					if g == nil {
+						bad = append(bad, "dynamic call at "+l.Pos(x.Pos()))
+					} else if mayPanic(g, 0) {
+						bad = append(bad, g.Name()+" at "+l.Pos(x.Pos()))
+					}
+				}
+				for _, s := range b.Succs {
+					if !seen[s] {
+						seen[s] = true
+						walk(s, 0)
+					}
+				}
+			}
+			for i, x := range ins.Block().Instrs {
+				if x == ins {
+					walk(ins.Block(), i+1)
+				}
+			}
+			if len(bad) > 4 {
+				bad = append(bad[:4:4], "…")
+			}
+			c.Check(rule, key, l.Pos(ins.Pos()), len(bad) == 0, "no deferred release, and no call that can panic while the lock is held",
+				"the lock has no deferred release and calls made while it is held can panic ("+strings.Join(bad, ", ")+"): the panic is recovered further up (Marshal, a VM with recovery) with the lock still held, and the next operation on the object blocks for ever")
+		})
+	}
+	c.extra["lock_sites"] = n
+}
+
+// ---- C02/operand-read-cover (also C05, C12) ------------------------------------------------------------------------------------
+// The dispatch arm of an opcode that reads operands reads every operand byte
+// the opcode table gives the instruction: each offset 1..W from the instruction
+// pointer (W = the sum of the operand widths), counting the routines the arm
+// calls.  (Reads beyond W are a look-ahead at the next instruction - the
+// tail-call test - and are not judged.)  An arm that assembles a 4-byte jump target from its
+// two low bytes runs every program correctly until a function grows past 64 KiB.
+func ruleOperandReadCover(c *Ctx, rule string) {
+	l := c.L
+	p := l.ByPath[modPath]
+	fd, sw := vmLoopSwitch(l)
+	if !c.Anchor(rule, "VM dispatch switch over Opcode", sw != nil && p != nil) {
+		return
+	}
+	info := p.TypesInfo
+	widths := opcodeOperandWidths(l)
+	if !c.Anchor(rule, "OpcodeOperands table", len(widths) >= 30) {
+		return
+	}
+	// every function of the package, by object
+	decls := map[types.Object]*ast.FuncDecl{}
+	for _, f := range p.Syntax {
+		for _, d := range f.Decls {
+			if m, ok := d.(*ast.FuncDecl); ok && m.Body != nil {
+				decls[info.Defs[m.Name]] = m
+			}
+		}
+	}
+	// offsets: every `X.curInsts[X.ip + k]` (or `[X.ip]` = 0) under n, following calls of methods on the receiver
+	visiting := map[*ast.FuncDecl]bool{}
+	var offsets func(n ast.Node, depth int, out map[int64]bool, opaque *bool)
+	offsets = func(n ast.Node, depth int, out map[int64]bool, opaque *bool) {
+		ast.Inspect(n, func(x ast.Node) bool {
+			switch e := x.(type) {
+			case *ast.IndexExpr:
+				sel, ok := ast.Unparen(e.X).(*ast.SelectorExpr)
+				if !ok || sel.Sel.Name != "curInsts" {
+					return true
+				}
+				idx := ast.Unparen(e.Index)
+				if be, ok := idx.(*ast.BinaryExpr); ok && be.Op == token.ADD {
+					if tv, ok := info.Types[be.Y]; ok && tv.Value != nil {
+						if k, ok := constant.Int64Val(tv.Value); ok {
+							if s, ok := ast.Unparen(be.X).(*ast.SelectorExpr); ok && s.Sel.Name == "ip" {
+								out[k] = true
+								return true
+							}
+						}
+					}
+					*opaque = true
+				}
+			case *ast.SliceExpr:
+				if sel, ok := ast.Unparen(e.X).(*ast.SelectorExpr); ok && sel.Sel.Name == "curInsts" {
+					*opaque = true // a slice of the stream handed on: not modelled
+				}
+			case *ast.CallExpr:
+				var callee types.Object
+				switch f := ast.Unparen(e.Fun).(type) {
+				case *ast.SelectorExpr:
+					callee = info.Uses[f.Sel]
+				case *ast.Ident:
+					callee = info.Uses[f]
+				}
+				if m := decls[callee]; m != nil && m != fd && depth < 3 && !visiting[m] {
+					visiting[m] = true
+					offsets(m.Body, depth+1, out, opaque)
+					visiting[m] = false
+				}
+			}
+			return true
+		})
+	}
+	n := 0
+	for obj, w := range widths {
+		v, ok := constant.Int64Val(obj.(*types.Const).Val())
+		if !ok {
+			continue
+		}
+		arm := opcodeArm(l, sw, v)
+		if arm == nil {
+			continue
+		}
+		got := map[int64]bool{}
+		opaque := false
+		for _, st := range arm.Body {
+			offsets(st, 0, got, &opaque)
+		}
+		delete(got, 0)
+		var miss, extra []string
+		for k := int64(1); k <= int64(w); k++ {
+			if !got[k] {
+				miss = append(miss, fmt.Sprint(k))
+			}
+		}
+		for k := range got {
+			if k > int64(w) {
+				extra = append(extra, fmt.Sprint(k))
+			}
+		}
+		sort.Strings(extra)
+		key := "arm " + obj.Name()
+		pos := l.Pos(arm.Pos())
+		n++
+		switch {
+		case opaque && len(miss) > 0:
+			c.Ok(rule, key, pos, "reads operands through a computed offset or a slice of the stream (not modelled)")
+		case len(miss) > 0 && len(got) > 0:
+			c.Bad(rule, key, pos, fmt.Sprintf("the instruction has %d operand byte(s); the arm reads some of them but never the byte(s) at ip+%s: an operand is assembled from fewer bytes than the compiler writes (values above the narrower range decode wrongly)", w, strings.Join(miss, ", ip+")))
+		case len(miss) > 0:
+			c.Ok(rule, key, pos, fmt.Sprintf("reads none of its %d operand byte(s) (the operand is not needed at run time)", w))
+		case len(extra) > 0:
+			// looking at the instruction that follows (the tail-call test does) is not an operand read
+			c.Ok(rule, key, pos, fmt.Sprintf("reads ip+1..ip+%d, and looks ahead at ip+%s", w, strings.Join(extra, ", ip+")))
+		default:
+			c.Ok(rule, key, pos, fmt.Sprintf("reads exactly ip+1..ip+%d", w))
+		}
+	}
+	c.extra["opcode_arms_compared"] = n
+}
+
+// opcodeOperandWidths: opcode constant -> total operand bytes, from the OpcodeOperands literal.
+func opcodeOperandWidths(l *Loaded) map[types.Object]int {
+	out := map[types.Object]int{}
+	p := l.ByPath[modPath]
+	if p == nil {
+		return out
+	}
+	for _, f := range p.Syntax {
+		for _, d := range f.Decls {
+			gd, ok := d.(*ast.GenDecl)
+			if !ok || gd.Tok != token.VAR {
+				continue
+			}
+			for _, sp := range gd.Specs {
+				vs := sp.(*ast.ValueSpec)
+				for i, nm := range vs.Names {
+					if nm.Name != "OpcodeOperands" || i >= len(vs.Values) {
+						continue
+					}
+					cl, ok := vs.Values[i].(*ast.CompositeLit)
+					if !ok {
+						continue
+					}
+					for _, el := range cl.Elts {
+						kv, ok := el.(*ast.KeyValueExpr)
+						if !ok {
+							continue
+						}
+						id, ok := kv.Key.(*ast.Ident)
+						if !ok {
+							continue
+						}
+						co, ok := p.TypesInfo.Uses[id].(*types.Const)
+						if !ok {
+							continue
+						}
+						total := 0
+						okW := true
+						if vl, ok := kv.Value.(*ast.CompositeLit); ok {
+							for _, we := range vl.Elts {
+								tv, ok := p.TypesInfo.Types[we]
+								if !ok || tv.Value == nil {
+									okW = false
+									continue
+								}
+								k, _ := constant.Int64Val(tv.Value)
+								total += int(k)
+							}
+						} else {
+							okW = false
+						}
+						if okW {
+							out[co] = total
+						}
+					}
+				}
+			}
+		}
+	}
+	return out
+}
+
+// ---- param-used (C10, C12) -----------------------------------------------------------------------------------------------------------
+// State is handed down the compile pipeline in parameters (the session's module
+// store, the options, the parent compiler's tables).  A parameter of an
+// unexported function that the function never looks at means the caller's state
+// is silently dropped: compileScript ignoring the module store it is given
+// numbers every fragment's modules from 0 while the VM's module cache persists.
+// Judged for unexported functions that are only called directly (no method
+// values, no interface satisfaction to keep a signature for) and for named
+// parameters (a parameter named _ is declared unused).
+func ruleParamUsed(c *Ctx, rule string, pkgFilter func(string) bool) {
+	l := c.L
+	n := 0
+	for _, fn := range l.RepoFuncs(pkgFilter) {
+		if fn.Object() == nil || fn.Object().Exported() || fn.Parent() != nil || len(fn.Blocks) == 0 || fn.Synthetic != "" {
+			continue
+		}
+		if fn.Signature.Recv() != nil {
+			continue // methods keep signatures for interfaces
+		}
+		if l.AddressTaken(fn) || len(l.RealCallers(fn)) == 0 {
+			continue
+		}
+		for i, p := range fn.Params {
+			if p.Name() == "_" || p.Name() == "" {
+				continue
+			}
+			n++
+			used := p.Referrers() != nil && len(*p.Referrers()) > 0
+			if used {
+				// only DebugRefs do not count
+				used = false
+				for _, r := range *p.Referrers() {
+					if _, isD := r.(*ssa.DebugRef); !isD {
+						used = true
+					}
+				}
+			}
+			c.Check(rule, fmt.Sprintf("%s | parameter %d (%s)", fnName(fn), i, tstr(p.Type())), l.Pos(p.Pos()), used, "used",
+				"the function never looks at this parameter: what its callers hand down (session module store, options, parent tables) is silently dropped")
+		}
+	}
+	c.extra["parameters_examined"] = n
+}
+
+// ---- C14/arity-with-variadic -------------------------------------------------------------------------------------------------------
+// NumParams of a compiled function counts the rest parameter of a variadic
+// function.  Any test of an argument count against NumParams that does not also
+// look at Variadic treats `func(c, ...rest)` as a function of two mandatory
+// parameters (or rejects it for "exactly one parameter").  Every function of
+// the library that compares a value derived from a CompiledFunction's
+// NumParams also reads a CompiledFunction's Variadic.
+func ruleArityWithVariadic(c *Ctx, rule string) {
+	l := c.L
+	_, fNP := l.structField(modPath, "CompiledFunction", "NumParams")
+	_, fVar := l.structField(modPath, "CompiledFunction", "Variadic")
+	if !c.Anchor(rule, "CompiledFunction.NumParams / Variadic", fNP >= 0 && fVar >= 0) {
+		return
+	}
+	n := 0
+	for _, fn := range l.RepoFuncs(func(p string) bool { return isLibPkg(p) }) {
+		var cmp ssa.Instruction
+		readsVar := false
+		eachInstr(fn, func(ins ssa.Instruction) {
+			if ld, ok := ins.(*ssa.UnOp); ok && ld.Op == token.MUL {
+				if _, ok := isFieldAddrOf(ld.X, modPath, "CompiledFunction", fVar); ok {
+					readsVar = true
+				}
+			}
+			bo, ok := ins.(*ssa.BinOp)
+			if !ok {
+				return
+			}
+			switch bo.Op {
+			case token.EQL, token.NEQ, token.LSS, token.LEQ, token.GTR, token.GEQ:
+			default:
+				return
+			}
+			isNP := func(v ssa.Value) bool {
+				return derivesFrom(v, func(x ssa.Value) bool {
+					ld, ok := x.(*ssa.UnOp)
+					if !ok || ld.Op != token.MUL {
+						return false
+					}
+					_, ok = isFieldAddrOf(ld.X, modPath, "CompiledFunction", fNP)
+					return ok
+				}, 4)
+			}
+			if isNP(bo.X) || isNP(bo.Y) {
+				if cmp == nil {
+					cmp = ins
+				}
+			}
+		})
+		if cmp == nil {
+			continue
+		}
+		n++
+		c.Check(rule, fmt.Sprintf("%s | comparison on NumParams", fnName(fn)), l.Pos(cmp.Pos()), readsVar, "the function also reads Variadic",
+			"an argument count (or a constant) is compared with NumParams in a function that never looks at Variadic: NumParams includes the rest parameter, so a variadic callee such as func(c, ...rest) is treated as having two mandatory parameters - called from Go it is refused or mis-bound where the same call inside a script works")
+	}
+	if n == 0 {
+		c.Und(rule, "comparisons on NumParams", "-", "no comparison on CompiledFunction.NumParams found")
+	}
+}
+
+// ---- C14/invoke-result-identity -----------------------------------------------------------------------------------------------------
+// What Invoke returns to Go is what the call produced: on every path the
+// returned Object is the first result of a call that returns (Object, error)
+// - the child VM's Run, the callee's own Call - or the Undefined singleton.
+// A copy, a conversion or any other method result in its place detaches the
+// Go caller from the aggregate the script function returned (writes through it
+// are lost), which a call inside the script never does.
+func ruleInvokeResultIdentity(c *Ctx, rule string) {
+	l := c.L
+	inv := l.Method(modPath, "Invoker", "Invoke")
+	if !c.Anchor(rule, "Invoker.Invoke", inv != nil) {
+		return
+	}
+	n := 0
+	for _, b := range inv.Blocks {
+		ret, ok := b.Instrs[len(b.Instrs)-1].(*ssa.Return)
+		if !ok || len(ret.Results) != 2 {
+			continue
+		}
+		seen := map[ssa.Value]bool{}
+		var bad []string
+		var leaf func(v ssa.Value)
+		leaf = func(v ssa.Value) {
+			if seen[v] {
+				return
+			}
+			seen[v] = true
+			switch x := v.(type) {
+			case *ssa.Phi:
+				for _, e := range x.Edges {
+					leaf(e)
+				}
+			case *ssa.Extract:
+				if cl, ok := x.Tuple.(*ssa.Call); ok && x.Index == 0 {
+					if tup, ok := cl.Type().(*types.Tuple); ok && tup.Len() == 2 && isErrorType(tup.At(1).Type()) {
+						return
+					}
+				}
+				bad = append(bad, describe(v))
+			case *ssa.UnOp:
+				if _, isG := x.X.(*ssa.Global); isG && x.Op == token.MUL {
+					return
+				}
+				if al, ok := x.X.(*ssa.Alloc); ok && al.Referrers() != nil {
+					for _, r := range *al.Referrers() {
+						if st, ok := r.(*ssa.Store); ok && st.Addr == ssa.Value(al) {
+							leaf(st.Val)
+						}
+					}
+					return
+				}
+				bad = append(bad, describe(v))
+			case *ssa.Const:
+				return
+			default:
+				bad = append(bad, describe(v))
+			}
+		}
+		leaf(returnedValue(ret, 0))
+		n++
+		c.Check(rule, fmt.Sprintf("Invoker.Invoke | return #%d", n), l.Pos(ret.Pos()), len(bad) == 0, "the first result of an (Object, error) call, or Undefined",
+			"Invoke returns "+strings.Join(bad, ", ")+" - not the object the call produced but something computed from it: an aggregate returned by the script function reaches Go as a different object than the one a caller inside the script gets")
+	}
+	if n == 0 {
+		c.Und(rule, "returns of Invoke", l.Pos(inv.Pos()), "no return with two results found")
+	}
+}
+
+// ---- C12/map-key-agree ---------------------------------------------------------------------------------------------------------------
+// A registry kept in a map field is looked up with the key it was stored under:
+// over all lookups, updates and deletes of one string-keyed map field of a
+// struct of the package, the key is normalised the same way (not at all, or by
+// the same function).  Cleaning the module name at the lookup and not at the
+// insertion makes every import of "./counter" miss: the module is compiled
+// again under a new index and its body runs once per import expression.
+func ruleMapKeyAgree(c *Ctx, rule string, pkgFilter func(string) bool) {
+	l := c.L
+	type acc struct {
+		shape string
+		pos   string
+		what  string
+	}
+	byField := map[string][]acc{}
+	// shapesOf: the forms the key can take; a parameter of a function that is only
+	// called directly stands for the arguments at its call sites
+	shapesOf := func(v ssa.Value) []string {
+		var rec func(v ssa.Value, d int) []string
+		rec = func(v ssa.Value, d int) []string {
+			if d > 5 {
+				return []string{"·"}
+			}
+			switch x := v.(type) {
+			case *ssa.Convert:
+				return rec(x.X, d+1)
+			case *ssa.ChangeType:
+				return rec(x.X, d+1)
+			case *ssa.Parameter:
+				fn := x.Parent()
+				if fn != nil && fn.Object() != nil && !fn.Object().Exported() && !l.AddressTaken(fn) {
+					if cs := l.RealCallers(fn); len(cs) > 0 {
+						pi := -1
+						for k, q := range fn.Params {
+							if q == x {
+								pi = k
+							}
+						}
+						var out []string
+						for _, ci := range cs {
+							if a := ci.Common().Args; pi >= 0 && pi < len(a) {
+								out = append(out, rec(a[pi], d+1)...)
+							}
+						}
+						if len(out) > 0 {
+							return out
+						}
+					}
+				}
+			case *ssa.Call:
+				if f := x.Call.StaticCallee(); f != nil && len(x.Call.Args) >= 1 {
+					if b, ok := x.Type().Underlying().(*types.Basic); ok && b.Info()&types.IsString != 0 {
+						for _, a := range x.Call.Args {
+							if ab, ok := a.Type().Underlying().(*types.Basic); ok && ab.Info()&types.IsString != 0 {
+								var out []string
+								for _, in := range rec(a, d+1) {
+									out = append(out, funcPkgPath(f)+"."+f.Name()+"("+in+")")
+								}
+								return out
+							}
+						}
+					}
+				}
+			}
+			return []string{"·"}
+		}
+		return uniq(sortedCopy(rec(v, 0)))
+	}
+	shapeOf := func(v ssa.Value) string { return strings.Join(shapesOf(v), " | ") }
+	fieldOf := func(m ssa.Value) (string, bool) {
+		ld, ok := m.(*ssa.UnOp)
+		if !ok || ld.Op != token.MUL {
+			return "", false
+		}
+		fa, ok := ld.X.(*ssa.FieldAddr)
+		if !ok {
+			return "", false
+		}
+		pt, ok := fa.X.Type().Underlying().(*types.Pointer)
+		if !ok {
+			return "", false
+		}
+		n := namedOf(pt.Elem())
+		st, ok2 := pt.Elem().Underlying().(*types.Struct)
+		if n == nil || !ok2 || n.Obj().Pkg() == nil || !pkgFilter(n.Obj().Pkg().Path()) {
+			return "", false
+		}
+		mt, ok := st.Field(fa.Field).Type().Underlying().(*types.Map)
+		if !ok {
+			return "", false
+		}
+		if kb, ok := mt.Key().Underlying().(*types.Basic); !ok || kb.Info()&types.IsString == 0 {
+			return "", false
+		}
+		return n.Obj().Name() + "." + st.Field(fa.Field).Name(), true
+	}
+	for _, fn := range l.RepoFuncs(pkgFilter) {
+		eachInstr(fn, func(ins ssa.Instruction) {
+			switch x := ins.(type) {
+			case *ssa.Lookup:
+				if f, ok := fieldOf(x.X); ok {
+					byField[f] = append(byField[f], acc{shapeOf(x.Index), l.Pos(x.Pos()), "lookup in " + fnName(fn)})
+				}
+			case *ssa.MapUpdate:
+				if f, ok := fieldOf(x.Map); ok {
+					byField[f] = append(byField[f], acc{shapeOf(x.Key), l.Pos(x.Pos()), "update in " + fnName(fn)})
+				}
+			case *ssa.Call:
+				if b, ok := x.Call.Value.(*ssa.Builtin); ok && b.Name() == "delete" && len(x.Call.Args) == 2 {
+					if f, ok := fieldOf(x.Call.Args[0]); ok {
+						byField[f] = append(byField[f], acc{shapeOf(x.Call.Args[1]), l.Pos(x.Pos()), "delete in " + fnName(fn)})
+					}
+				}
+			}
+		})
+	}
+	var fields []string
+	for f := range byField {
+		fields = append(fields, f)
+	}
+	sort.Strings(fields)
+	n := 0
+	for _, f := range fields {
+		as := byField[f]
+		if len(as) < 2 {
+			continue
+		}
+		n++
+		shapes := map[string]acc{}
+		for _, a := range as {
+			if _, ok := shapes[a.shape]; !ok {
+				shapes[a.shape] = a
+			}
+		}
+		if len(shapes) == 1 {
+			c.Ok(rule, "map field "+f, as[0].pos, fmt.Sprintf("%d accesses, one key form (%s)", len(as), as[0].shape))
+			continue
+		}
+		var ds []string
+		for s, a := range shapes {
+			ds = append(ds, fmt.Sprintf("%s (%s at %s)", s, a.what, a.pos))
+		}
+		sort.Strings(ds)
+		c.Bad(rule, "map field "+f, as[0].pos, "the map is accessed with keys normalised in different ways: "+strings.Join(ds, "; ")+" - an entry stored under one form is not found under the other")
+	}
+	if n < 3 {
+		c.Und(rule, "string-keyed map fields", "-", fmt.Sprintf("only %d string-keyed map fields with several accesses found", n))
+	}
+}
+
+// ---- C16/emit-node ------------------------------------------------------------------------------------------------------------------
+// The position of a calling frame is read from the source map at the
+// instruction that follows the call - which may be any instruction the
+// compiler emits for the enclosing construct, synthetic jumps included.  A
+// function that compiles a syntax node (it has a parameter of a parser node
+// type) therefore never emits an instruction with a nil node: the source map
+// would hold "no position" there and the frame prints as "-".
+func ruleEmitNode(c *Ctx, rule string) {
+	l := c.L
+	emit := l.Method(modPath, "Compiler", "emit")
+	pp := l.ByPath[modPath+"/parser"]
+	if !c.Anchor(rule, "Compiler.emit / parser.Node", emit != nil && pp != nil && len(emit.Params) >= 2) {
+		return
+	}
+	var nodeI *types.Interface
+	if tn, ok := pp.Types.Scope().Lookup("Node").(*types.TypeName); ok {
+		nodeI, _ = tn.Type().Underlying().(*types.Interface)
+	}
+	if !c.Anchor(rule, "parser.Node", nodeI != nil) {
+		return
+	}
+	n := 0
+	for _, fn := range l.RepoFuncs(func(p string) bool { return p == modPath }) {
+		hasNode := false
+		for _, p := range fn.Params[min(1, len(fn.Params)):] {
+			if types.Implements(p.Type(), nodeI) {
+				hasNode = true
+			}
+		}
+		if fn.Parent() != nil {
+			for _, p := range fn.Parent().Params {
+				if types.Implements(p.Type(), nodeI) {
+					hasNode = true
+				}
+			}
+		}
+		eachInstr(fn, func(ins ssa.Instruction) {
+			ci, ok := ins.(ssa.CallInstruction)
+			if !ok || ci.Common().StaticCallee() != emit || len(ci.Common().Args) < 2 {
+				return
+			}
+			n++
+			k, isConst := ci.Common().Args[1].(*ssa.Const)
+			if !isConst || !k.IsNil() {
+				return
+			}
+			key := fmt.Sprintf("%s | emit(nil, …)", fnName(fn))
+			c.Check(rule, key, l.Pos(ins.Pos()), !hasNode, "emitted outside the compilation of a syntax node (the implicit final return)",
+				"an instruction is emitted without a node while compiling a syntax node: the source map has no position at that instruction, and a frame whose call is followed by it is reported as '-' in the stack trace")
+		})
+	}
+	c.Ok(rule, "emit call sites", l.Pos(emit.Pos()), fmt.Sprintf("%d calls of emit examined", n))
+	if n < 50 {
+		c.Und(rule, "emit call sites (count)", "-", fmt.Sprintf("only %d calls of Compiler.emit found", n))
+	}
+}
+
+// ---- loop-err-checked (C20, C19) -----------------------------------------------------------------------------------------------------
+// An error returned by a call made inside a loop is looked at before the loop
+// goes round again: the error result is compared with nil (or returned) inside
+// the loop.  Assigned to a variable that is only tested after the loop, every
+// error but the last iteration's is overwritten - a slice with an unsupported
+// value in any position but the last converts "successfully", with a nil
+// Object in the hole.
+func ruleLoopErrChecked(c *Ctx, rule string, fns []*ssa.Function, floor int) {
+	l := c.L
+	n := 0
+	for _, fn := range fns {
+		eachInstr(fn, func(ins ssa.Instruction) {
+			cl, ok := ins.(*ssa.Call)
+			if !ok || cl.Referrers() == nil {
+				return
+			}
+			tup, ok := cl.Type().(*types.Tuple)
+			if !ok || tup.Len() < 2 || !isErrorType(tup.At(tup.Len()-1).Type()) {
+				return
+			}
+			b := cl.Block()
+			// innermost loop around the call
+			var h *ssa.BasicBlock
+			for _, cand := range fn.Blocks {
+				if !(cand == b || cand.Dominates(b)) || !blockReaches(b, cand) {
+					continue
+				}
+				back := false
+				for _, p := range cand.Preds {
+					if cand.Dominates(p) {
+						back = true
+					}
+				}
+				if back && (h == nil || h.Dominates(cand)) {
+					h = cand
+				}
+			}
+			if h == nil {
+				return
+			}
+			inL := func(x *ssa.BasicBlock) bool { return (x == h || h.Dominates(x)) && blockReaches(x, h) }
+			var errv *ssa.Extract
+			for _, r := range *cl.Referrers() {
+				if ex, ok := r.(*ssa.Extract); ok && ex.Index == tup.Len()-1 {
+					errv = ex
+				}
+			}
+			callee := "call"
+			if f := cl.Call.StaticCallee(); f != nil {
+				callee = f.Name()
+			} else if cl.Call.IsInvoke() {
+				callee = cl.Call.Method.Name()
+			}
+			key := fmt.Sprintf("%s | error of %s() in a loop", fnName(fn), callee)
+			if errv == nil || errv.Referrers() == nil || len(*errv.Referrers()) == 0 {
+				return // discarded outright: other rules (err-nil-use) judge that
+			}
+			n++
+			checked := false
+			seen := map[ssa.Value]bool{}
+			var follow func(v ssa.Value, d int)
+			follow = func(v ssa.Value, d int) {
+				if seen[v] || d > 4 || v.Referrers() == nil {
+					return
+				}
+				seen[v] = true
+				for _, r := range *v.Referrers() {
+					switch x := r.(type) {
+					case *ssa.BinOp:
+						if (x.Op == token.EQL || x.Op == token.NEQ) && inL(x.Block()) {
+							checked = true
+						}
+					case *ssa.Return:
+						checked = true // returned from inside the loop (or handed straight on)
+					case *ssa.Store:
+						// spilled named result: loads of the cell inside the loop
+						if al, ok := x.Addr.(*ssa.Alloc); ok && al.Referrers() != nil {
+							for _, ar := range *al.Referrers() {
+								if ld, ok := ar.(*ssa.UnOp); ok && ld.Op == token.MUL && inL(ld.Block()) && (ld.Block() != x.Block() || instrDominates(x, ld)) {
+									follow(ld, d+1)
+								}
+							}
+						}
+						// stored into a captured cell or field: recorded for someone else to test
+						if _, isAlloc := x.Addr.(*ssa.Alloc); !isAlloc {
+							checked = true
+						}
+					case *ssa.Phi:
+						if inL(x.Block()) && x.Block() != h {
+							follow(x, d+1)
+						}
+					case *ssa.MakeInterface, *ssa.ChangeInterface:
+						follow(r.(ssa.Value), d+1)
+					case ssa.CallInstruction:
+						checked = true // handed to a function (wrapping, recording)
+					}
+				}
+			}
+			follow(errv, 0)
+			c.Check(rule, key, l.Pos(cl.Pos()), checked, "tested, returned or handed on inside the loop",
+				"the error of a call made in a loop is not looked at inside the loop (only the variable's last value is tested afterwards): the errors of all iterations but the last are overwritten")
+		})
+	}
+	if n < floor {
+		c.Und(rule, "calls with an error result inside loops", "-", fmt.Sprintf("only %d found, fewer than the %d confirmed by hand", n, floor))
+	}
+}
+
+// ---- C04/encode-guard-survives --------------------------------------------------------------------------------------------------------
+// "Encoding the decoded Bytecode and decoding it once more gives an equivalent
+// program": whatever the encoder's decisions depend on must survive decoding.
+// Every branch condition of the encoding functions that reads a field of one of
+// the encoded structs reads a field that the decoding functions store.  A field
+// nothing restores (a look-up cache such as the file set's last-used file) is
+// set on a freshly compiled Bytecode and empty on a decoded one: a section
+// written "only if the cache is set" is silently dropped the second time round.
+func ruleEncodeGuardSurvives(c *Ctx, rule string) {
+	l := c.L
+	dec := decodeFuncs(c, rule)
+	if dec == nil {
+		return
+	}
+	type fld struct {
+		t *types.Named
+		i int
+	}
+	stored := map[fld]bool{}
+	typesSeen := map[*types.Named]bool{}
+	canon := func(t types.Type) *types.Named {
+		if p, ok := t.Underlying().(*types.Pointer); ok {
+			t = p.Elem()
+		}
+		n := namedOf(t)
+		if n == nil {
+			return nil
+		}
+		// the encoder's shim types (type Bytecode ugo.Bytecode) stand for the types they copy
+		if n.Obj().Pkg() != nil && n.Obj().Pkg().Path() == encPath {
+			for _, pp := range []string{modPath, parserPath} {
+				if p := l.ByPath[pp]; p != nil {
+					if tn, ok := p.Types.Scope().Lookup(n.Obj().Name()).(*types.TypeName); ok && types.Identical(tn.Type().Underlying(), n.Underlying()) {
+						if nn := namedOf(tn.Type()); nn != nil {
+							return nn
+						}
+					}
+				}
+			}
+		}
+		return n
+	}
+	for _, fn := range dec {
+		eachInstr(fn, func(ins ssa.Instruction) {
+			switch x := ins.(type) {
+			case *ssa.Store:
+				if fa, ok := x.Addr.(*ssa.FieldAddr); ok {
+					if n := canon(fa.X.Type()); n != nil {
+						stored[fld{n, fa.Field}] = true
+						typesSeen[n] = true
+					}
+				}
+			}
+		})
+	}
+	if !c.Anchor(rule, "fields stored by the decoding functions (found fewer than 10)", len(stored) >= 10) {
+		return
+	}
+	// encoding functions: MarshalBinary / Encode methods and what they reach inside the package
+	var roots []*ssa.Function
+	for _, f := range l.RepoFuncs(func(pp string) bool { return pp == encPath }) {
+		if f.Parent() == nil && f.Synthetic == "" && (f.Name() == "MarshalBinary" || f.Name() == "Encode" || strings.HasPrefix(f.Name(), "EncodeBytecode")) {
+			roots = append(roots, f)
+		}
+	}
+	enc := staticReach(roots, func(f *ssa.Function) bool { return strings.HasPrefix(funcPkgPath(f), encPath) && len(f.Blocks) > 0 })
+	n := 0
+	for _, fn := range enc {
+		isDec := false
+		for _, d := range dec {
+			if d == fn {
+				isDec = true
+			}
+		}
+		if isDec {
+			continue
+		}
+		for _, b := range fn.Blocks {
+			iff, ok := b.Instrs[len(b.Instrs)-1].(*ssa.If)
+			if !ok {
+				continue
+			}
+			var reads []*ssa.FieldAddr
+			seen := map[ssa.Value]bool{}
+			var rec func(v ssa.Value, d int)
+			rec = func(v ssa.Value, d int) {
+				if v == nil || seen[v] || d > 5 {
+					return
+				}
+				seen[v] = true
+				switch x := v.(type) {
+				case *ssa.BinOp:
+					rec(x.X, d+1)
+					rec(x.Y, d+1)
+				case *ssa.UnOp:
+					if fa, ok := x.X.(*ssa.FieldAddr); ok {
+						reads = append(reads, fa)
+						return
+					}
+					rec(x.X, d+1)
+				case *ssa.Call:
+					if bi, ok := x.Call.Value.(*ssa.Builtin); ok && (bi.Name() == "len" || bi.Name() == "cap") {
+						rec(x.Call.Args[0], d+1)
+					}
+				case *ssa.Convert:
+					rec(x.X, d+1)
+				case *ssa.ChangeType:
+					rec(x.X, d+1)
+				case *ssa.Phi:
+					for _, e := range x.Edges {
+						rec(e, d+1)
+					}
+				}
+			}
+			rec(iff.Cond, 0)
+			for _, fa := range reads {
+				nt := canon(fa.X.Type())
+				if nt == nil || !typesSeen[nt] {
+					continue
+				}
+				st, ok := nt.Underlying().(*types.Struct)
+				if !ok {
+					continue
+				}
+				n++
+				key := fmt.Sprintf("%s | branch on %s.%s", fnName(fn), nt.Obj().Name(), st.Field(fa.Field).Name())
+				c.Check(rule, key, l.Pos(iff.Cond.Pos()), stored[fld{nt, fa.Field}], "a field the decoding functions restore",
+					"the encoder branches on "+nt.Obj().Name()+"."+st.Field(fa.Field).Name()+", which no decoding function stores: the decision differs between a compiled Bytecode and the same Bytecode after one encode / decode round, so a second round does not reproduce the program (a section guarded by it is dropped)")
+			}
+		}
+	}
+	if n < 5 {
+		c.Und(rule, "branches of the encoding functions on fields of encoded structs", "-", fmt.Sprintf("only %d found", n))
+	}
+}
+
+// ---- C05/trace-writer-guard ---------------------------------------------------------------------------------------------------------
+// The compiler, the optimizer and their helpers print their trace to an
+// io.Writer held in a field that is nil unless a writer was configured; the
+// Trace* option flags are independent of it (a flag can be set with no writer,
+// and the optimizer's private compiler copies the flags but takes its writer
+// from elsewhere).  Every write to such a writer - a call of a printing
+// function of the Go library with the field's value, directly or through
+// helpers that receive it - lies behind a test that the field is not nil:
+// at the call, or at every call site of the helper that contains it.
+// (Root package only: the parser keeps a boolean that its one constructor sets
+// to "writer != nil"; that invariant is of another shape and is not judged.)
+func ruleTraceWriterGuard(c *Ctx, rule string) {
+	l := c.L
+	isWriter := func(t types.Type) bool {
+		n := namedOf(t)
+		return n != nil && n.Obj().Pkg() != nil && n.Obj().Pkg().Path() == "io" && n.Obj().Name() == "Writer"
+	}
+	isTraceFieldLoad := func(v ssa.Value) bool {
+		ld, ok := v.(*ssa.UnOp)
+		if !ok || ld.Op != token.MUL {
+			return false
+		}
+		fa, ok := ld.X.(*ssa.FieldAddr)
+		if !ok || !isWriter(ld.Type()) {
+			return false
+		}
+		pt, ok := fa.X.Type().Underlying().(*types.Pointer)
+		if !ok {
+			return false
+		}
+		n := namedOf(pt.Elem())
+		return n != nil && n.Obj().Pkg() != nil && strings.HasPrefix(n.Obj().Pkg().Path(), modPath)
+	}
+	// guardedAt: a dominating branch established that some trace writer field is not nil
+	guardedAt := func(b *ssa.BasicBlock) bool {
+		for _, g := range guardEdges(b) {
+			bo, ok := g.If.Cond.(*ssa.BinOp)
+			if !ok || (bo.Op != token.NEQ && bo.Op != token.EQL) || (bo.Op == token.NEQ) != g.Truth {
+				continue
+			}
+			for _, pr := range [][2]ssa.Value{{bo.X, bo.Y}, {bo.Y, bo.X}} {
+				if k, ok := pr[1].(*ssa.Const); ok && k.IsNil() && isTraceFieldLoad(pr[0]) {
+					return true
+				}
+			}
+		}
+		return false
+	}
+	memo := map[*ssa.Function]int{}
+	unguardedSite := ""
+	var callersGuarded func(fn *ssa.Function, depth int) bool
+	callersGuarded = func(fn *ssa.Function, depth int) bool {
+		if r, ok := memo[fn]; ok {
+			return r == 1
+		}
+		memo[fn] = 0
+		if depth > 4 || fn.Object() == nil || fn.Object().Exported() || l.AddressTaken(fn) {
+			return false
+		}
+		cs := l.RealCallers(fn)
+		if len(cs) == 0 {
+			return false
+		}
+		for _, ci := range cs {
+			if guardedAt(ci.Block()) {
+				continue
+			}
+			if p := ci.Parent(); p != nil && callersGuarded(p, depth+1) {
+				continue
+			}
+			if depth == 0 {
+				unguardedSite = fnName(ci.Parent()) + " at " + l.Pos(ci.Pos())
+			}
+			return false
+		}
+		memo[fn] = 1
+		return true
+	}
+	n := 0
+	for _, fn := range l.RepoFuncs(func(p string) bool { return p == modPath }) {
+		eachInstr(fn, func(ins ssa.Instruction) {
+			ci, ok := ins.(ssa.CallInstruction)
+			if !ok {
+				return
+			}
+			g := ci.Common().StaticCallee()
+			if g == nil || strings.HasPrefix(funcPkgPath(g), modPath) {
+				return // only calls that leave the repository write
+			}
+			for _, a := range ci.Common().Args {
+				if !isWriter(a.Type()) {
+					continue
+				}
+				fromField := isTraceFieldLoad(a)
+				_, fromParam := a.(*ssa.Parameter)
+				if !fromField && !fromParam {
+					continue
+				}
+				if fromParam {
+					// a helper that prints to a writer it is given: judged only when some caller hands it a trace field
+					hands := false
+					for _, cs := range l.RealCallers(fn) {
+						for _, ca := range cs.Common().Args {
+							if isTraceFieldLoad(ca) {
+								hands = true
+							}
+						}
+					}
+					if !hands {
+						continue
+					}
+				}
+				n++
+				ok := guardedAt(ins.Block()) || callersGuarded(fn, 0)
+				c.Check(rule, fmt.Sprintf("%s | %s(trace writer, …)", fnName(fn), g.Name()), l.Pos(ins.Pos()), ok, "behind a test that the writer field is not nil (here or at every call site of the helper)",
+					"the trace writer is written to without a test that it is not nil on the way (unguarded call: "+unguardedSite+"; a Trace* flag is not that test: flags and writer are set independently): Compile panics with a nil dereference for TraceCompiler: true without a Trace writer")
+			}
+		})
+	}
+	if n < 6 {
+		c.Und(rule, "writes to a trace writer", "-", fmt.Sprintf("only %d found", n))
+	}
+}
+
+// ---- C13/set-owned (also C10) ------------------------------------------------------------------------------------------------------------
+// Every symbol table owns its set of disabled builtins: the value assigned to
+// the field is a map made on the spot (or nil, or the result of a function all
+// of whose returns are such).  Assigning the set of another table (what its
+// accessor returns) makes two tables share one map: the optimizer's scratch
+// table empties "its" set on reset - and the session's disabled builtins with it.
+func ruleSetOwned(c *Ctx, rule string, roles *symtabRoles) {
+	l := c.L
+	var fresh func(v ssa.Value, d int) bool
+	fresh = func(v ssa.Value, d int) bool {
+		if d > 4 {
+			return false
+		}
+		switch x := v.(type) {
+		case *ssa.MakeMap:
+			return true
+		case *ssa.Const:
+			return x.IsNil()
+		case *ssa.Phi:
+			for _, e := range x.Edges {
+				if !fresh(e, d+1) {
+					return false
+				}
+			}
+			return len(x.Edges) > 0
+		case *ssa.Call:
+			f := x.Call.StaticCallee()
+			if f == nil || len(f.Blocks) == 0 {
+				return false
+			}
+			k := 0
+			for _, b := range f.Blocks {
+				if ret, ok := b.Instrs[len(b.Instrs)-1].(*ssa.Return); ok && len(ret.Results) == 1 {
+					k++
+					if !fresh(ret.Results[0], d+1) {
+						return false
+					}
+				}
+			}
+			return k > 0
+		}
+		return false
+	}
+	n := 0
+	for _, fn := range l.RepoFuncs(func(pp string) bool { return pp == modPath }) {
+		eachInstr(fn, func(ins ssa.Instruction) {
+			st, ok := ins.(*ssa.Store)
+			if !ok {
+				return
+			}
+			if _, ok := isFieldAddrOf(st.Addr, modPath, "SymbolTable", roles.fDisabled); !ok {
+				return
+			}
+			n++
+			own := false
+			if ld, ok := st.Val.(*ssa.UnOp); ok && ld.Op == token.MUL {
+				if fa2, ok := isFieldAddrOf(ld.X, modPath, "SymbolTable", roles.fDisabled); ok {
+					if fa1, ok := st.Addr.(*ssa.FieldAddr); ok && (fa1.X == fa2.X || exprEq(fa1.X, fa2.X)) {
+						own = true // the table's own set, kept across a reset
+					}
+				}
+			}
+			c.Check(rule, fmt.Sprintf("%s | disabledBuiltins = %s", fnName(fn), describe(st.Val)), l.Pos(st.Pos()), own || fresh(st.Val, 0), "a map made on the spot (or nil, or the table's own set)",
+				"the table's set of disabled builtins is assigned a map that is not made on the spot (another table's set, through its accessor): two tables share one map, and resetting or extending one changes the other - builtins the host disabled become available again after the optimizer's scratch table is reset")
+		})
+	}
+	if n == 0 {
+		c.Und(rule, "stores to disabledBuiltins", "-", "none found")
+	}
+}
+
+// ---- C11/decode-reentrant (also C18, C04) --------------------------------------------------------------------------------------------
+// Decoding is a function of its input: the decoding functions keep no state in
+// package-level variables.  They never store to a package-level variable, and a
+// package-level slice or map is only read - indexed, ranged over, measured,
+// or handed to a function in a parameter that function never writes through.
+// Scratch buffers hoisted to package level make two concurrent decodes of
+// version 1 images overwrite each other's operands.
+func ruleDecodeReentrant(c *Ctx, rule string, fns []*ssa.Function) {
+	l := c.L
+	// mayWrite(f, i): f may write through its i-th parameter (element store, append in place, copy into it, handing it on)
+	memo := map[string]int{}
+	var mayWrite func(f *ssa.Function, i int, depth int) bool
+	var writtenThrough func(v ssa.Value, depth int, seen map[ssa.Value]bool) bool
+	writtenThrough = func(v ssa.Value, depth int, seen map[ssa.Value]bool) bool {
+		if seen[v] || v.Referrers() == nil {
+			return false
+		}
+		seen[v] = true
+		for _, r := range *v.Referrers() {
+			switch x := r.(type) {
+			case *ssa.IndexAddr:
+				if x.X == v && addrWritten(x, seen) {
+					return true
+				}
+			case *ssa.Slice:
+				if x.X == v && writtenThrough(x, depth, seen) {
+					return true
+				}
+			case *ssa.MapUpdate:
+				if x.Map == v {
+					return true
+				}
+			case *ssa.Phi:
+				if writtenThrough(x, depth, seen) {
+					return true
+				}
+			case *ssa.ChangeType:
+				if writtenThrough(x, depth, seen) {
+					return true
+				}
+			case *ssa.Store:
+				if x.Val == v {
+					return true // escapes into memory: assume written later
+				}
+			case ssa.CallInstruction:
+				cc := x.Common()
+				if b, ok := cc.Value.(*ssa.Builtin); ok {
+					switch b.Name() {
+					case "append":
+						if len(cc.Args) > 0 && cc.Args[0] == v {
+							return true
+						}
+					case "copy":
+						if len(cc.Args) > 0 && cc.Args[0] == v {
+							return true
+						}
+					case "delete", "clear":
+						return true
+					}
+					continue
+				}
+				g := cc.StaticCallee()
+				for ai, a := range cc.Args {
+					if a != v {
+						continue
+					}
+					if g == nil {
+						return true
+					}
+					if len(g.Blocks) == 0 {
+						// the Go library: bytes.NewReader, fmt, sort.Search... read; known writers are few
+						pp := funcPkgPath(g)
+						if (pp == "sort" && !strings.HasPrefix(g.Name(), "Search")) || pp == "io" || (pp == "encoding/binary" && strings.HasPrefix(g.Name(), "Put")) {
+							return true
+						}
+						continue
+					}
+					if mayWrite(g, ai, depth+1) {
+						return true
+					}
+				}
+			}
+		}
+		return false
+	}
+	mayWrite = func(f *ssa.Function, i int, depth int) bool {
+		key := fmt.Sprintf("%p/%d", f, i)
+		if r, ok := memo[key]; ok {
+			return r == 1
+		}
+		if depth > 4 || i >= len(f.Params) {
+			return true
+		}
+		memo[key] = 0
+		res := writtenThrough(f.Params[i], depth, map[ssa.Value]bool{})
+		if res {
+			memo[key] = 1
+		}
+		return res
+	}
+	n := 0
+	for _, fn := range fns {
+		eachInstr(fn, func(ins ssa.Instruction) {
+			switch x := ins.(type) {
+			case *ssa.Store:
+				if g, ok := x.Addr.(*ssa.Global); ok {
+					n++
+					c.Bad(rule, fmt.Sprintf("%s | store to package-level %s", fnName(fn), g.Name()), l.Pos(x.Pos()), "a decoding function assigns a package-level variable: decoding keeps state between (and across concurrent) calls")
+				}
+			case *ssa.UnOp:
+				g, ok := x.X.(*ssa.Global)
+				if !ok || x.Op != token.MUL {
+					return
+				}
+				switch x.Type().Underlying().(type) {
+				case *types.Slice, *types.Map:
+				default:
+					return
+				}
+				n++
+				c.Check(rule, fmt.Sprintf("%s | use of package-level %s", fnName(fn), g.Name()), l.Pos(x.Pos()), !writtenThrough(x, 0, map[ssa.Value]bool{}), "only read (indexed, ranged over, measured, handed to readers)",
+					"a decoding function writes through a package-level slice or map (re-slices it as a scratch buffer, appends to it, or hands it to a function that does): two decodes running at the same time, or one after the other, share that storage - operands of one image end up in the other")
+			}
+		})
+	}
+	c.Ok(rule, "decoding functions scanned", "-", fmt.Sprintf("%d functions, %d uses of package-level slices / maps or stores", len(fns), n))
+}
+
+// addrWritten: the element address is stored through (directly or after being handed on).
+func addrWritten(a *ssa.IndexAddr, seen map[ssa.Value]bool) bool {
+	if a.Referrers() == nil {
+		return false
+	}
+	for _, r := range *a.Referrers() {
+		switch x := r.(type) {
+		case *ssa.Store:
+			if x.Addr == ssa.Value(a) {
+				return true
+			}
+		case ssa.CallInstruction:
+			return true
+		}
+	}
+	return false
+}
+
+// ---- C02/symbol-operand ----------------------------------------------------------------------------------------------------------------
+// Local and captured variables are addressed by the index their symbol carries.
+// Every emission of an instruction that addresses a local or a captured
+// variable (Get/Set/Define + Local/Free, with or without Ptr) takes that
+// operand from the Index field of a Symbol.  A counter in its place agrees with
+// the symbol's index only while variables happen to be captured in the order
+// the enclosing function captured them.
+func ruleSymbolOperand(c *Ctx, rule string) {
+	l := c.L
+	emit := l.Method(modPath, "Compiler", "emit")
+	_, fIdx := l.structField(modPath, "Symbol", "Index")
+	if !c.Anchor(rule, "Compiler.emit / Symbol.Index", emit != nil && fIdx >= 0 && len(emit.Params) >= 4) {
+		return
+	}
+	ops := map[int64]string{}
+	for o, v := range opcodeConsts(l) {
+		nm := o.Name()
+		if (strings.HasPrefix(nm, "OpGet") || strings.HasPrefix(nm, "OpSet") || strings.HasPrefix(nm, "OpDefine")) && (strings.Contains(nm, "Local") || strings.Contains(nm, "Free")) {
+			ops[v] = nm
+		}
+	}
+	if !c.Anchor(rule, "opcodes addressing locals and captured variables (found fewer than 6)", len(ops) >= 6) {
+		return
+	}
+	n := 0
+	for _, fn := range l.RepoFuncs(func(p string) bool { return p == modPath }) {
+		eachInstr(fn, func(ins ssa.Instruction) {
+			ci, ok := ins.(ssa.CallInstruction)
+			if !ok || ci.Common().StaticCallee() != emit || len(ci.Common().Args) < 4 {
+				return
+			}
+			k, ok := constInt64(ci.Common().Args[2])
+			if !ok {
+				return
+			}
+			nm, ok := ops[k]
+			if !ok {
+				return
+			}
+			elems := variadicElems(ci.Common().Args[3])
+			if len(elems) == 0 {
+				return
+			}
+			n++
+			fromSym := derivesFrom(elems[0], func(v ssa.Value) bool {
+				ld, ok := v.(*ssa.UnOp)
+				if !ok || ld.Op != token.MUL {
+					return false
+				}
+				_, ok = isFieldAddrOf(ld.X, modPath, "Symbol", fIdx)
+				return ok
+			}, 4)
+			// a BinOp with something else (index+1) would still "derive": require a plain load, possibly through phis and conversions
+			if bo, isBin := elems[0].(*ssa.BinOp); isBin {
+				_ = bo
+				fromSym = false
+			}
+			c.Check(rule, fmt.Sprintf("%s | emit(%s, %s)", fnName(fn), nm, describe(elems[0])), l.Pos(ins.Pos()), fromSym, "the symbol's Index",
+				"the operand of an instruction that addresses a local or captured variable is not the Index of a symbol (a running counter or another value): it names the right variable only while the orders happen to agree - a closure nested three deep reads and writes its sibling's variable")
+		})
+	}
+	if n < 8 {
+		c.Und(rule, "emissions addressing locals / captured variables", "-", fmt.Sprintf("only %d found", n))
+	}
 }
